@@ -382,7 +382,7 @@ func genInline(t *rapid.T, depth int, inA bool) string {
 }
 
 func genBlock(t *rapid.T, depth int) string {
-	switch k := rapid.IntRange(0, 8).Draw(t, "blk"); {
+	switch k := rapid.IntRange(0, 9).Draw(t, "blk"); {
 	case k <= 1 || depth <= 0:
 		return "<p" + genAttrs(t) + ">" + genInline(t, 2, false) + "</p>"
 	case k == 2:
@@ -414,8 +414,54 @@ func genBlock(t *rapid.T, depth int) string {
 		return "<style>.c > p { color: red; } /* é */</style>"
 	case k == 7:
 		return `<script type="application/json" id="d">{"a":"</p>","b":[1,2]}</script>`
+	case k == 9:
+		// content models a parse/serialise round trip can get wrong
+		return rapid.SampledFrom(specialBlocks).Draw(t, "special")
 	}
 	return "<div>" + genInline(t, 2, false) + "</div>"
+}
+
+// specialBlocks: elements whose content is not ordinary markup (raw text, escapable raw text,
+// noscript, templates, foreign content, tables, preformatted text with a leading line break).
+var specialBlocks = []string{
+	`<noscript><p>Please enable JavaScript.</p></noscript>`,
+	`<noscript>&lt;script&gt;alert(1)&lt;/script&gt; &amp;lt;b&amp;gt; &lt;b&gt;bold&lt;/b&gt;</noscript>`,
+	`<noscript><img src="/pixel.gif?a=1&amp;b=2" alt=""></noscript>`,
+	`<textarea name="t">&lt;b&gt; x &amp;amp; </p> <script>1</script></textarea>`,
+	"<textarea>\n\nleading line breaks</textarea>",
+	"<pre>\n\ntwo leading line breaks</pre>",
+	"<pre>a\n  b\tc</pre>",
+	`<template><tr><td>cell</td></tr><p>in template</p></template>`,
+	`<svg viewBox="0 0 10 10" xmlns="http://www.w3.org/2000/svg"><circle cx="5" cy="5" r="4"/><foreignObject><p>html</p></foreignObject><title>&lt;t&gt;</title></svg>`,
+	`<math><mi>x</mi><annotation-xml encoding="text/html"><b>b</b></annotation-xml></math>`,
+	`<table><caption>c</caption><thead><tr><th>h</th></tr></thead><tbody><tr><td>1 &lt; 2</td><td><b>x</b></td></tr></tbody></table>`,
+	`<table><tr><td>implied tbody</td></tr></table>`,
+	`<select name="s"><option value="1" selected>one</option><optgroup label="g"><option>two</option></optgroup></select>`,
+	`<iframe src="/f" title="f">&lt;fallback&gt;</iframe>`,
+	`<details open><summary>s</summary><p>d</p></details>`,
+	`<a href="/x?a=1&amp;b=2#f" title="&quot;t&quot;">link <b>bold</b></a>`,
+	`<button type="button" onclick="if (a &lt; b &amp;&amp; c) { go('x') }">go</button>`,
+	`<p>unclosed paragraph<p>second`,
+	`<ul><li>unclosed item<li>second item</ul>`,
+	`<dl><dt>t<dd>d</dl>`,
+	`<img src="a.png"
+	alt="line
+break">`,
+	"<p>nul-free &#0; &#x80; &#xD800; references</p>",
+	`<div hidden data-x='single "double" inside' data-y=unquoted>attrs</div>`,
+}
+
+// headExtras: what real pages keep in their head besides title and meta.
+var headExtras = []string{
+	`<noscript><img height="1" width="1" src="https://example.test/tr?id=1&amp;ev=PageView"></noscript>`,
+	`<noscript><link rel="stylesheet" href="/noscript.css"></noscript>`,
+	`<noscript><style>.js-only { display: none }</style></noscript>`,
+	`<style>body > p::before { content: "<x>"; }</style>`,
+	`<script>window.dataLayer = window.dataLayer || []; if (1 < 2) { dataLayer.push("</" + "script>"); }</script>`,
+	`<base href="/">`,
+	`<link rel="icon" href="data:image/svg+xml,%3Csvg xmlns='http://www.w3.org/2000/svg'/%3E">`,
+	`<meta name="viewport" content="width=device-width, initial-scale=1">`,
+	`<template id="t"><p>head template</p></template>`,
 }
 
 var genDoc = rapid.Custom(func(t *rapid.T) string {
@@ -438,6 +484,12 @@ var genDoc = rapid.Custom(func(t *rapid.T) string {
 		sb.WriteString("<title>" + rapid.SampledFrom([]string{"T", "é &amp; x", "a <b> c"}).Draw(t, "title") + "</title>")
 		if rapid.Bool().Draw(t, "headscript") {
 			sb.WriteString(`<script src="/app.js" defer></script><link rel="stylesheet" href="/s.css">`)
+		}
+		for i, n := 0, rapid.IntRange(0, 2).Draw(t, "nheadextras"); i < n; i++ {
+			sb.WriteString(rapid.SampledFrom(headExtras).Draw(t, "headextra"))
+		}
+		if rapid.Bool().Draw(t, "titleAfter") {
+			sb.WriteString("<title>second title</title>")
 		}
 		sb.WriteString("</head>")
 	}
